@@ -27,6 +27,12 @@ def run(ctx) -> None:
              "both the lazy and the eager arm")
     ctx.rule("R-MEANAXES", "reduce_ensemble selects exactly the axes whose metadata carries _ensemble_mean and "
              "returns self.mean over those axes")
+    ctx.rule("R-PERCONFIG", "in multislice_and_detect every measurement update happens once per configuration: each "
+             "call of _update_measurements / _validate_potential_ensemble_indices lies inside the loop over "
+             "_generate_potential_configurations, and the configuration index handed to "
+             "_validate_potential_ensemble_indices is data-dependent on that loop's own index variable (a constant "
+             "index, or an update hoisted out of the loop, writes one configuration only: the others keep the "
+             "allocated zeros and an ensemble mean is too small by 1/N)")
     ctx.rule("R-COPYGUARD", "(shared with C38) one propagator — one CachedFFTWConvolution — serves all configurations "
              "of a multislice_and_detect call: its cached FFTW plans may be executed only while bound (creation / "
              "update_arrays) to the array of the current call, else configuration k is propagated on the buffer left "
@@ -145,6 +151,42 @@ def run(ctx) -> None:
     ctx.check(okm, "R-MEANAXES", f"{re_.qualname}", re_.loc(mr), "mean over exactly the _ensemble_mean axes",
               f"reduce_ensemble averages over {detail or norm_text(axarg) if axarg is not None else '?'} — not the "
               "axes flagged _ensemble_mean", key_detail="axes")
+
+    # ---------------- R-PERCONFIG
+    mad = repo.function("abtem.multislice", "multislice_and_detect")
+    dfm = DataFlow(mad.node)
+    cloops = [l for l in walk_no_nested(mad.node) if isinstance(l, ast.For) and isinstance(l.iter, ast.Call)
+              and call_name(l.iter) == "_generate_potential_configurations"]
+    ctx.require(len(cloops) == 1, f"{mad.qualname}: loop over _generate_potential_configurations not found")
+    cloop = cloops[0]
+    ctx.require(isinstance(cloop.target, ast.Tuple) and isinstance(cloop.target.elts[0], ast.Name),
+                f"{mad.qualname}: the configuration loop does not unpack (index, configuration)")
+    cidx = cloop.target.elts[0].id
+    inside = {id(n) for n in ast.walk(cloop)}
+    n_upd = 0
+    for c in walk_no_nested(mad.node):
+        if not (isinstance(c, ast.Call) and call_name(c) in ("_update_measurements", "_validate_potential_ensemble_indices")):
+            continue
+        n_upd += 1
+        name = call_name(c)
+        if id(c) not in inside:
+            ctx.violation("R-PERCONFIG", f"{mad.qualname}:{name} outside the configuration loop", mad.loc(c),
+                          f"`{norm_text(c)[:80]}` runs once, outside the loop over the potential configurations: what it "
+                          "records is written for one configuration only", key_detail="hoisted")
+            continue
+        if name == "_validate_potential_ensemble_indices":
+            ctx.require(c.args, f"{mad.qualname}: _validate_potential_ensemble_indices called without arguments")
+            st = _stmt_of(mad.node, c)
+            sl = dfm.backward_slice(dfm.cfg.node_of(st).idx, c.args[0])
+            dep = cidx in sl.visited or cidx in sl.external or any(
+                dfm.cfg.nodes[n_].ast is cloop for n_ in sl.def_nodes)
+            ctx.check(dep, "R-PERCONFIG", f"{mad.qualname}:configuration index", mad.loc(c),
+                      f"index `{norm_text(c.args[0])}` derives from the loop variable `{cidx}`",
+                      f"the configuration index `{norm_text(c.args[0])[:60]}` does not derive from the loop variable "
+                      f"`{cidx}`: every configuration is written to the same slot", key_detail="index")
+        else:
+            ctx.ok("R-PERCONFIG", f"{mad.qualname}:{name}", mad.loc(c), "inside the configuration loop")
+    ctx.require(n_upd >= 3, f"{mad.qualname}: only {n_upd} measurement update / index calls found")
 
     # ---------------- R-COPYGUARD (stateful convolution reused across configurations; the rule lives in c38)
     from . import c38
